@@ -104,6 +104,9 @@ func (p *C20PtrM) GetA() string { return p.A }
 func (p *C20PtrM) Ptr() string  { return "ptr" }
 func (p C20PtrM) Val() string   { return "val" }
 
+// a named string type as a map key
+type C20Key string
+
 // every method has a pointer receiver: the value type itself has an empty method set
 type C20PtrOnly struct{ A string }
 
@@ -244,6 +247,24 @@ func c20Value(d map[string]interface{}) reflect.Value {
 				m[unhex(p[0].(string))] = c20Value(p[1].(map[string]interface{})).String()
 			}
 			return reflect.ValueOf(m)
+		case "iface", "named":
+			// keys of an interface type (YAML-style maps) and of a named string type
+			mi := map[interface{}]interface{}{}
+			mn := map[C20Key]interface{}{}
+			for _, e := range kv {
+				p := e.([]interface{})
+				v := c20Value(p[1].(map[string]interface{}))
+				var x interface{}
+				if v.IsValid() {
+					x = v.Interface()
+				}
+				mi[unhex(p[0].(string))] = x
+				mn[C20Key(unhex(p[0].(string)))] = x
+			}
+			if kind == "iface" {
+				return reflect.ValueOf(mi)
+			}
+			return reflect.ValueOf(mn)
 		case "int":
 			m := map[string]int{}
 			for _, e := range kv {
@@ -286,7 +307,11 @@ func c20Enc(v reflect.Value) string {
 	case reflect.Map:
 		var parts []string
 		for _, k := range v.MapKeys() {
-			parts = append(parts, hx(k.String())+"="+c20Enc(v.MapIndex(k)))
+			ks := k.String()
+			if k.Kind() == reflect.Interface {
+				ks = fmt.Sprint(k.Interface())
+			}
+			parts = append(parts, hx(ks)+"="+c20Enc(v.MapIndex(k)))
 		}
 		sort.Strings(parts)
 		return "map[" + strings.Join(parts, ",") + "]"
@@ -369,10 +394,13 @@ func c20Direct(x interface{}, dot bool, name string) (res string) {
 	}
 	v := reflect.ValueOf(x)
 	if v.Kind() == reflect.Map {
-		if v.Type().Key().Kind() != reflect.String {
-			return "nil"
+		switch v.Type().Key().Kind() {
+		case reflect.String:
+			return c20Enc(v.MapIndex(reflect.ValueOf(name).Convert(v.Type().Key())))
+		case reflect.Interface:
+			return c20Enc(v.MapIndex(reflect.ValueOf(name)))
 		}
-		return c20Enc(v.MapIndex(reflect.ValueOf(name).Convert(v.Type().Key())))
+		return "nil"
 	}
 	if !dot {
 		return "nil"
